@@ -32,7 +32,15 @@ LEAN_MODULE = "SkVerif.Props.C04"
 APPLY = ct.APPLY_METHODS
 import recorders_C04 as R
 
-OBLIGATIONS = []   # filled in below (kept as a literal list further down)
+OBLIGATIONS = [
+    # Part A: any class table
+    "SkVerif.C04.wf_getParams_eq_args",
+    "SkVerif.C04.ctor_missing_param_absent",
+    "SkVerif.C04.fresh_not_fitted",
+    "SkVerif.C04.guarded_method_unfitted_raises_NotFitted",
+    "SkVerif.C04.summary_guarded_raises_NotFitted",
+    "SkVerif.C04.fit_frame",
+]
 TRUSTED = [
     "harness/extract/classtable.py (AST translator: source -> ClassTable/GuardTable/FitWrites); cross-checked per importable class against the running class (parameters, MRO, get_params implementation, observed constructor / guard / fit behaviour)",
     "classes outside the package (scikit-learn bases) are leaves: their constructors are ASSUMED to store keyword arguments under their own names (leading positional names from the 0.24 signatures)",
@@ -83,11 +91,11 @@ def _summary_term(s):
         _, a, b = x.split("/")
         return "(.viaMeta %s %s)" % (a, b)
     b = lambda x: "true" if x == "T" else "false"
-    return ("{ params := %s, ctor := [%s], mayRaise := %s, varargs := %s, freshUnfitted := %s, getImpl := %s, "
+    return ("{ params := %s, ctor := [%s], mayRaise := %s, validates := %s, varargs := %s, freshUnfitted := %s, getImpl := %s, "
             "setImpl := %s, guards := [%s], fitWrites := %s, fitUnknown := %s, fitSetsFitted := %s, "
             "fitAbstract := %s, hooks := %s }" % (
                 nl(f["params"]), ", ".join(ps[x] for x in f["ctor"].split(",") if x != "-"), b(f["raise"]),
-                b(f["varargs"]), b(f["fresh"]), impl(f["get"]), impl(f["set"]),
+                b(f["validates"]), b(f["varargs"]), b(f["fresh"]), impl(f["get"]), impl(f["set"]),
                 ", ".join(gs[x] for x in f["guards"].split(",") if x != "-"), nl(f["fitw"]), b(f["fitu"]),
                 b(f["fitset"]), b(f["fitabs"]), b(f["hooks"])))
 
@@ -124,7 +132,7 @@ def build_table():
         if r.returncode != 0 or len(sums) != len(ids):
             _fail_harness("generated class table does not compile / evaluate:\n" + (r.stdout + r.stderr)[-3000:])
         # pass 2: the kernel re-checks every summary (decide +kernel), in parallel chunks
-        nchunk = 6
+        nchunk = 8
         order = sorted(ids.items(), key=lambda kv: kv[1])
         chunks = [order[i::nchunk] for i in range(nchunk)]
         results = [None] * nchunk
@@ -189,6 +197,7 @@ def static_of(key):
     nm = T["idnames"]
     params = [nm[int(i)] for i in _lst(f["params"])]
     return {"params": params, "ctor": dict(zip(params, _lst(f["ctor"]))), "raise": f["raise"] == "T",
+            "validates": f["validates"] == "T",
             "varargs": f["varargs"] == "T", "fresh": f["fresh"] == "T", "get": f["get"], "set": f["set"],
             "guards": dict(zip(APPLY, _lst(f["guards"]))), "fitw": [nm[int(i)] for i in _lst(f["fitw"])],
             "fitu": f["fitu"] == "T", "fitset": f["fitset"] == "T", "fitabs": f["fitabs"] == "T",
@@ -289,7 +298,15 @@ def oracle_table(case, real):
     # --- constructor contract
     dyn_ctor = dict(zip(st["params"], _lst(r["ctor"]))) if dyn and _lst(r.get("ctor", "")) != ["skip"] else {}
     any_param_fail = False
-    for p in st["params"]:
+    o = _PROBE_CACHE.get(key) or {}
+    unconstructible = dyn and bool(st["params"]) and all(dyn_ctor.get(p) == "R" for p in st["params"]) and \
+        "construction failed" in (o.get("fitdiag") or "")
+    if unconstructible:
+        any_param_fail = True
+        fails.append(("%s:not-constructible" % cname,
+                      "%s(...) raises for every argument tried (%s)" % (cname, o.get("fitdiag"))))
+    missing = [p for p in st["params"] if st["ctor"].get(p) == "M" or dyn_ctor.get(p) == "M"]
+    for p in ([] if unconstructible else st["params"]):
         s_tok = st["ctor"].get(p, "U")
         d_tok = dyn_ctor.get(p, "skip")
         bad_dyn = d_tok not in ("S", "skip")
@@ -303,7 +320,7 @@ def oracle_table(case, real):
             fails.append(("%s:ctor:%s" % (cname, p),
                           "constructor parameter %s.%s: table says %s, observed %s (%s)" % (
                               cname, p, {"S": "stored", "M": "never stored", "U": "not provably stored"}[s_tok], d_tok, what)))
-    if st["raise"] and not any_param_fail:
+    if st["validates"] and not any_param_fail:
         fails.append(("%s:ctor-validates" % cname, "the constructor of %s can raise (validation / computation in __init__)" % cname))
     if st["varargs"] or r.get("extra") == "A":
         fails.append(("%s:ctor-varargs" % cname, "%s.__init__ accepts arguments (*args/**kwargs) that get_params cannot return" % cname))
@@ -317,11 +334,13 @@ def oracle_table(case, real):
         fails.append(("%s:fresh-is_fitted" % cname, "constructor of %s does not set _is_fitted = False (table)" % cname))
     # --- get/set/clone protocol on the default instance
     if dyn and not abstract_proto:
-        if r["rt"] not in ("ok", "skip"):
+        if missing:
+            pass      # get_params itself fails: already reported as <cls>:ctor:<param>
+        elif r["rt"] not in ("ok", "skip"):
             fails.append(("%s:set_params-roundtrip" % cname, "set_params(**get_params()) on %s: %s" % (cname, r["rt"])))
-        if r["cl"] not in ("ok", "skip"):
+        if not missing and r["cl"] not in ("ok", "skip"):
             fails.append(("%s:clone" % cname, "clone(%s): %s" % (cname, r["cl"])))
-        if r["unk"] not in ("E:value", "skip"):
+        if not missing and r["unk"] not in ("E:value", "skip"):
             fails.append(("%s:unknown-param" % cname, "set_params(unknown name) on %s: %s" % (cname, r["unk"])))
     # --- fitted-state guards
     gl = _lst(r["guards"]) if dyn else ["skip"] * len(APPLY)
@@ -331,11 +350,13 @@ def oracle_table(case, real):
             continue
         if tok == "skip":
             if s_tok == "U" and not st["fitabs"] and not dyn:
-                fails.append(("%s.%s:unfitted" % (owner_of(key, m), m),
-                              "%s.%s (static only): no fitted-state check before first use of fitted state" % (cname, m)))
+                fails.append(("%s.%s:unfitted" % (cname, m),
+                              "%s.%s (static only; defined in %s): no fitted-state check before first use of fitted state" % (
+                                  cname, m, owner_of(key, m))))
             continue
-        fails.append(("%s.%s:unfitted" % (owner_of(key, m), m),
-                      "%s.%s on an unfitted / freshly cloned estimator: %s instead of NotFittedError" % (cname, m, tok)))
+        fails.append(("%s.%s:unfitted" % (cname, m),
+                      "%s.%s (defined in %s) on an unfitted / freshly cloned estimator: %s instead of NotFittedError" % (
+                          cname, m, owner_of(key, m), tok)))
     # --- fit
     ft = _lst(r["fit"]) if dyn else ["skip"]
     dyn_fit = dict(zip(st["params"], ft)) if ft != ["skip"] else {}
@@ -431,6 +452,7 @@ class Gen:
         self.rng, self.pool, self.next_id = rng, pool, 1
         self.leaves = [k for k, v in pool.items() if not v["est"] and "named" not in v]
         self.comps = [k for k, v in pool.items() if v["est"] or "named" in v]
+        self.roots = [k for k in pool if k not in EXTERNAL_CLASSES]
 
     def atom(self):
         return ["a", self.rng.choice([0, 0, 1, 2, 3, 4, 5, 6, 7])]
@@ -469,21 +491,37 @@ def show_tree(node, pool):
 
 
 def keys_of(node, pool, prefix=()):
-    """all (path, node) addressable by set_params on this estimator node (params, components, nested)"""
+    """all (path, node, kind, owner class, parameter name) addressable by set_params on this estimator node
+    (parameters, named components, nested); parameters the harness pins are left out"""
     out = []
     if node[0] != "e":
         return out
     spec = pool[node[2]]
     for p, v in node[3].items():
-        out.append((prefix + (p,), v, "param"))
+        if p in spec.get("pin", {}):
+            continue
+        out.append((prefix + (p,), v, "param", node[2], p))
         if v[0] == "e":
             out.extend(keys_of(v, pool, prefix + (p,)))
         if v[0] == "n" and p == spec.get("named"):
             for nm, cv in v[1]:
-                out.append((prefix + (nm,), cv, "comp"))
+                out.append((prefix + (nm,), cv, "comp", node[2], nm))
                 if cv[0] == "e":
                     out.extend(keys_of(cv, pool, prefix + (nm,)))
     return out
+
+
+def rand_value(rng, gen, pool, cls, param, kind="param"):
+    """a value of the right shape for a parameter: the parameter holding the named components always gets a
+    list of (name, estimator) pairs (the model does not cover get_params on a meta-estimator whose component
+    list is not a list: the real code raises TypeError there)"""
+    spec = pool[cls]
+    if kind == "param" and param == spec.get("named"):
+        n = rng.choice([1, 2, 3])
+        return ["n", [[nm, gen.est(1)] for nm in rng.sample(COMP_NAMES, n)]]
+    if kind == "comp" or param in spec["est"]:
+        return gen.est(rng.choice([1, 1, 2])) if rng.random() < 0.8 else gen.atom()
+    return gen.atom() if rng.random() < 0.85 else gen.est(1)
 
 
 def gen_ops(rng, gen, tree, pool, n_ops, allow_bad=True):
@@ -500,24 +538,18 @@ def gen_ops(rng, gen, tree, pool, n_ops, allow_bad=True):
                 continue
             kvs = []
             for _ in range(rng.choice([1, 1, 1, 2, 2, 3])):
-                path, node, kind = rng.choice(ks)
+                path, node, kind, ocls, pname = rng.choice(ks)
                 if any(p == "__".join(path) for p, _ in kvs):
                     continue
-                spec_named = None
-                # whole list of named components?
-                if node[0] == "n" and kind == "param":
-                    n = rng.choice([1, 2, 3])
-                    val = ["n", [[nm, gen.est(1)] for nm in rng.sample(COMP_NAMES, n)]]
-                elif kind == "comp" or node[0] == "e":
-                    val = gen.est(rng.choice([1, 1, 2])) if rng.random() < 0.8 else gen.atom()
-                else:
-                    val = gen.atom() if rng.random() < 0.85 else gen.est(1)
-                kvs.append(("__".join(path), val))
+                kvs.append(("__".join(path), rand_value(rng, gen, pool, ocls, pname, kind)))
             # order-sensitive extras: a nested key under a value that is being replaced in the same call
             if kvs and rng.random() < 0.35:
                 k0, v0 = kvs[0]
-                if v0[0] == "e" and pool[v0[2]]["params"]:
-                    kvs.append((k0 + "__" + rng.choice(pool[v0[2]]["params"]), gen.atom()))
+                if v0[0] == "e":
+                    cand = [p for p in pool[v0[2]]["params"] if p not in pool[v0[2]].get("pin", {})]
+                    if cand:
+                        p2 = rng.choice(cand)
+                        kvs.append((k0 + "__" + p2, rand_value(rng, gen, pool, v0[2], p2)))
                 elif v0[0] == "n" and v0[1]:
                     nm = rng.choice(v0[1])[0]
                     pre = k0.rsplit("__", 1)[0] + "__" if "__" in k0 else ""
@@ -544,7 +576,7 @@ def gen_ops(rng, gen, tree, pool, n_ops, allow_bad=True):
             if ests:
                 ops.append("set:%s__zz_unknown=a1" % "__".join(rng.choice(ests)[0]))
         elif kind == "nested-on-atom":
-            atoms = [k for k in ks if k[1][0] != "e" and len(k[0]) == 1]
+            atoms = [k for k in ks if k[1][0] == "a" and len(k[0]) == 1]
             if atoms:
                 ops.append("set:%s__x=a1" % "__".join(rng.choice(atoms)[0]))
         else:
@@ -755,16 +787,23 @@ def real_tree(case):
                     outs.append(",".join("%s=%s" % (k, W.ref(d[k])) for k in sorted(d)) or "-")
                 elif name == "set":
                     kw = {}
+                    nodes = {}
                     for kv in arg.split("|"):
                         k, _, vs = kv.partition("=")
-                        node = parse_tree(vs)
-                        spec_named = False
-                        kw[k] = W.build(node, triples=_is_triples_key(obj, k, pool))
+                        nodes[k] = parse_tree(vs)
+                    for k, node in nodes.items():
+                        kw[k] = W.build(node, triples=_is_triples_key(obj, k, pool, nodes))
                     try:
                         r = obj.set_params(**kw)
                         outs.append("ok " + W.show(obj) + ("" if r is obj else " returned-other"))
                     except BaseException as e:
-                        outs.append(_tree_err(e))
+                        tok = _tree_err(e)
+                        if len(nodes) > 1 and tok in ("E:value", "E:attr"):
+                            # several keys may be wrong at once; Python reports the first in dict order, the
+                            # model the first in parameter order: only the rejection itself is compared
+                            tok = "E:rejected"
+                        outs.append(tok)
+                        break        # the object is now half-updated: the history ends here (see Drv/C04.lean runSeq)
                 elif name == "clone":
                     c = clone(obj)
                     W.adopt_clone(obj, c)
@@ -817,9 +856,34 @@ def _tree_err(e):
     return {"ValueError": "E:value", "AttributeError": "E:attr", "TypeError": "E:type"}.get(type(e).__name__, canon_err(e))
 
 
-def _is_triples_key(obj, key, pool):
-    """a whole-list value for ColumnEnsembleClassifier.estimators needs (name, est, col) triples"""
+def _node_child(node, name, pool):
+    if node[0] != "e":
+        return None
+    if name in node[3]:
+        return node[3][name]
+    nm = pool.get(node[2], {}).get("named")
+    if nm and nm in node[3] and node[3][nm][0] == "n":
+        for k, v in reversed(node[3][nm][1]):
+            if k == name:
+                return v
+    return None
+
+
+def _is_triples_key(obj, key, pool, nodes=None):
+    """a whole-list value for ColumnEnsembleClassifier.estimators needs (name, est, col) triples; the owner of
+    the key may itself be a value installed by the same call"""
     parts = key.split("__")
+    nodes = nodes or {}
+    for i in range(len(parts) - 1, 0, -1):
+        pre = "__".join(parts[:i])
+        if pre in nodes:
+            cur = nodes[pre]
+            for p in parts[i:-1]:
+                cur = _node_child(cur, p, pool) if cur is not None else None
+            if cur is None or cur[0] != "e":
+                return False
+            spec = pool.get(cur[2], {})
+            return bool(spec.get("triples")) and parts[-1] == spec.get("named")
     cur = obj
     for p in parts[:-1]:
         try:
@@ -860,7 +924,7 @@ def oracle_tree(case, real):
         if name == "set":
             keys = [kv.split("=", 1)[0] for kv in arg.split("|")]
             unknown = [k for k in keys if k.split("__")[0].startswith("zz")]
-            if unknown and out != "E:value":
+            if unknown and out not in ("E:value", "E:rejected"):
                 fails.append(("%s:unknown-param" % root, "set_params(%s) on %s was not rejected with ValueError: %s" % (unknown[0], root, out[:60])))
             if " returned-other" in out:
                 fails.append(("%s:set_params-returns" % root, "set_params did not return self"))
@@ -899,7 +963,10 @@ def compare(real, model):
         return compare_table(real, model)
     if real.startswith("skip"):
         return True
-    return real == model
+    if real == model:
+        return True
+    ro, mo = real.split(" ; "), model.split(" ; ")
+    return len(ro) == len(mo) and all(a == b or (a == "E:rejected" and b in ("E:value", "E:attr")) for a, b in zip(ro, mo))
 
 
 def oracle(case, real):
@@ -978,9 +1045,7 @@ def exhaustive_scope(pool):
                     ps[p] = ["a", j % 7 + 1]
             tree = ["e", 100, key, ps]
             ts = show_tree(tree, pool)
-            for path, node, kind in keys_of(tree, pool):
-                if path[-1] in spec.get("pin", {}):
-                    continue
+            for path, node, kind, _ocls, _pn in keys_of(tree, pool):
                 k = "__".join(path)
                 if node[0] == "n":
                     val = "n[c=%s]" % show_tree(leaf(3), pool)
@@ -1018,7 +1083,7 @@ def gen_cases(tier, rng):
     for i in range(n):
         g = Gen(rng, pool)
         depth = rng.choice([1, 2, 2, 3, 3])
-        tree = g.est(depth, cls=rng.choice(g.comps) if g.comps and rng.random() < 0.85 else None)
+        tree = g.est(depth, cls=rng.choice(g.comps) if g.comps and rng.random() < 0.85 else rng.choice(g.roots))
         g.next_id = 500
         ops = gen_ops(rng, g, tree, pool, rng.choice([2, 3, 4, 5, 6]))
         if ops:
